@@ -86,6 +86,60 @@ macro_rules
       | split))
 
 theorem Pres.liftOp (r : OpRes) : Pres (liftOp r) := by cases r <;> simp only [Never.Src.liftOp] <;> pres_core
+theorem Pres.loadVals (ls : List Loc) : Pres (loadVals ls) := by
+  induction ls with
+  | nil => simp only [Never.Src.loadVals]; pres_core
+  | cons l ls ih => simp only [Never.Src.loadVals]; pres_core
+theorem Pres.allocRes (rs : List OpRes) : Pres (allocRes rs) := by
+  induction rs with
+  | nil => simp only [Never.Src.allocRes]; pres_core
+  | cons r rs ih =>
+    simp only [Never.Src.allocRes]
+    apply Pres.bind (Pres.liftOp _); intro v
+    apply Pres.bind (Pres.alloc _); intro c
+    apply Pres.bind ih; intro rest
+    exact Pres.pure _
+theorem Pres.arrObjOf (o : Loc) : Pres (arrObjOf o) := by unfold Never.Src.arrObjOf; pres_core
+theorem Pres.newArr (d : List Nat) (cs : List Loc) : Pres (newArr d cs) := by unfold Never.Src.newArr; pres_core
+theorem Pres.arrMap (f : Val → OpRes) (a : Option Loc) : Pres (arrMap f a) := by
+  unfold Never.Src.arrMap
+  split
+  · exact Pres.throwE _
+  · apply Pres.bind (Pres.arrObjOf _); intro de
+    apply Pres.bind (Pres.loadVals _); intro vs
+    apply Pres.bind (Pres.allocRes _); intro cells
+    exact Pres.newArr _ _
+theorem Pres.arrZip (op : BinOp) (a b : Option Loc) : Pres (arrZip op a b) := by
+  unfold Never.Src.arrZip
+  split
+  · apply Pres.bind (Pres.arrObjOf _); intro de1
+    apply Pres.bind (Pres.arrObjOf _); intro de2
+    split
+    · apply Pres.bind (Pres.loadVals _); intro v1
+      apply Pres.bind (Pres.loadVals _); intro v2
+      apply Pres.bind (Pres.allocRes _); intro cells
+      exact Pres.newArr _ _
+    · exact Pres.throwE _
+  · exact Pres.throwE _
+theorem Pres.matMul (a b : Option Loc) : Pres (matMul a b) := by
+  unfold Never.Src.matMul
+  split
+  · apply Pres.bind (Pres.arrObjOf _); intro de1
+    apply Pres.bind (Pres.arrObjOf _); intro de2
+    split
+    · split
+      · apply Pres.bind (Pres.loadVals _); intro v1
+        apply Pres.bind (Pres.loadVals _); intro v2
+        apply Pres.bind (Pres.allocRes _); intro cells
+        exact Pres.newArr _ _
+      · exact Pres.stuck _
+    · exact Pres.throwE _
+  · exact Pres.throwE _
+theorem Pres.unopM (op : UnOp) (a : Val) : Pres (unopM op a) := by
+  unfold Never.Src.unopM
+  split
+  · exact Pres.arrMap _ _
+  · exact Pres.liftOp _
 theorem Pres.binopM (op : BinOp) (a b : Val) : Pres (binopM op a b) := by
   unfold Never.Src.binopM
   split
@@ -99,6 +153,13 @@ theorem Pres.binopM (op : BinOp) (a b : Val) : Pres (binopM op a b) := by
     split
     · exact Pres.pure _
     · exact Pres.stuck _
+  · exact Pres.arrZip _ _ _
+  · exact Pres.arrZip _ _ _
+  · exact Pres.matMul _ _
+  · exact Pres.arrMap _ _
+  · exact Pres.arrMap _ _
+  · exact Pres.arrMap _ _
+  · exact Pres.arrMap _ _
   · exact Pres.liftOp _
 theorem Pres.truthy (v : Val) : Pres (truthy v) := by unfold Never.Src.truthy; pres_core
 theorem Pres.convCell (t : Ty) (l : Loc) : Pres (convCell t l) := by unfold Never.Src.convCell; pres_core
